@@ -710,6 +710,9 @@ def run(ctx):
     ctx.attempt(r86, ctx)
     ctx.attempt(r87, ctx)
     ctx.attempt(r89, ctx)
+    ctx.rule("R-8.11", "every completed step is committed: each normal path through treat_output writes restart.toml", floor=1)
+    from .shared import commit_every_step
+    ctx.attempt(commit_every_step, ctx, "R-8.11")
     from .shared import commit_refreshes_state
     ctx.attempt(commit_refreshes_state, ctx, "R-8.10", " - the file on disk then describes a mixture of two steps")
     from .shared import commit_is_final
@@ -717,6 +720,7 @@ def run(ctx):
 
 
 VARIANTS = [
+    B("c08-commit-only-when-printing", REPEX, "            self.print_shooted(md_items, pn_news)\n        # save for possible restart\n        self.write_toml()", "            self.print_shooted(md_items, pn_news)\n            # save for possible restart\n            self.write_toml()", "R-8.11", control=True, why="seeded C06_g"),
     B("c08-active-stored-conditionally", REPEX, '        self.config["current"]["active"] = self.live_paths()\n        locked_ep = []', '        if self.locked:\n            self.config["current"]["active"] = self.live_paths()\n        locked_ep = []', "R-8.10", control=True),
     B("c08-data-rows-buffered-handle", REPEX, '    with open(state.data_file, "a") as fp:\n        for pn in pn_archive:', '    fp = state.__dict__.setdefault("_data_fp", open(state.data_file, "a"))\n    if True:\n        for pn in pn_archive:', "R-8.9", control=True, why="seeded C08_d (handle kept open between steps)"),
     K("c08-keep-data-rows-explicit-close", REPEX, '    with open(state.data_file, "a") as fp:\n        for pn in pn_archive:', '    fp = open(state.data_file, "a")\n    try:\n        for pn in pn_archive:', also=[(REPEX, '            traj_data.pop(pn)\n', '            traj_data.pop(pn)\n    finally:\n        fp.close()\n')]),
